@@ -193,4 +193,15 @@ PROPS = {
         assumptions=["z3 sound", "PyVC level-1 strings", "A-EMAIL: FetchAtt._body / msg_as_bytes deterministic"],
         not_decided="(f),(g),(h) for all messages; RFC822* desugaring in the parser",
     ),
+    "C12": dict(
+        design_ref="DESIGN.md 7 C12",
+        technique="contract-based deductive verification (PyVC + z3) of the persist/restore pair over a ghost model of the committed sqlite row: Mailbox.shutdown and Mailbox._restore_from_db; exhaustive codec oracle and restart end-to-end oracle (bounded)",
+        category="other",
+        text="Proved: Mailbox.shutdown(commit_db=True) ends with the committed row equal to the in-memory (uid_vv, next_uid, uids, msg_keys, num_msgs, subscribed) and releases every queued command; "
+             "Mailbox._restore_from_db, from any committed row written from an invariant state, restores exactly those values and rebuilds both index maps as exact inverses. Together: restore(persist(s)) == s on the UID state, for all states.",
+        note="Assumed, not proved: commit_to_db's SQL (contract: the row written decodes to the current state) and the fetch of the row (A-DB), with the column codec expand(compact(xs)) == xs checked exhaustively for all subsets of 0..12 (bounded). "
+             "Flags (sequences table), attributes and the mailbox list after restart are covered only by the bounded restart oracle (64 histories). The first-activation path (INSERT of a fresh row) is not under contract.",
+        assumptions=["z3 sound", "PyVC encoding", "A-DB: sqlite commit is atomic and durable; SELECT returns the committed row", "codec round trip (bounded)", "the row was committed from a state satisfying Inv(Mailbox)"],
+        not_decided="flags/attributes/list across restart beyond the bounded oracle; SPECIAL-USE re-creation",
+    ),
 }
